@@ -8,6 +8,7 @@ package main
 //   tree  J c | V a | N id | W id | H id | FR t | FL c t b | FC c t b1 b2 | A x c b | O h t | S h t     (see Model/C11.lean)
 //   ops   b (nothing) | e (Eval) | s (Subscribe with OnNext) | z (Subscribe without OnNext) | y (Cor.YieldFromIO)
 //         o<h> (ObserveOn) | u<h> (SubscribeOn)   h: 0 = nil, 1/2 = unbuffered handlers, 3 = handler with a buffered channel
+//         r<h> ObserveOn(h3), Subscribe while h3's goroutine is busy, then SubscribeOn(h) before the effect has run
 //         d<c> the value becomes m.FlatMap(k_c) (k_c logs K<c>(x), returns Just((x+1)%1000)); a sibling m.FlatMap(k') is derived from
 //              the same m right afterwards and dropped (branching compositions: a shared prefix must not be disturbed)
 // Observation: per op the events logged since the previous op ("-" if none), " | "-separated; e and y prefix "v=<value> ".
@@ -309,6 +310,18 @@ func c11RunCase[T any](api *c11API[T], t *c11Tree, ops []string) string {
 			case op == "y":
 				v := api.to(api.yield(m))
 				return "v=" + strconv.Itoa(v) + " " + flush()
+			case len(op) == 2 && op[0] == 'r' && op[1] >= '0' && op[1] <= '3':
+				// re-configuration in flight: the effect is to run on h3 (buffered), whose goroutine is kept busy; Subscribe
+				// leaves the effect waiting in h3's buffer; the value is given another SubscribeOn handler; then h3 is released.
+				// The subscription made before must still deliver on the handler that was set when Subscribe was called.
+				m = m.ObserveOn(e.h[3])
+				gate, started := make(chan struct{}), make(chan struct{})
+				e.h[3].Post(func() { close(started); <-gate })
+				<-started
+				m.Subscribe(api.onNext(func(x T) { e.emit("D(" + strconv.Itoa(api.to(x)) + ")") }))
+				m = m.SubscribeOn(e.h[op[1]-'0'])
+				close(gate)
+				return flush()
 			case len(op) >= 2 && op[0] == 'd':
 				// a further FlatMap on the composed value, and a SIBLING derived from the same value right afterwards that is
 				// never evaluated: compositions are values, deriving one more from a shared prefix must not disturb the first
@@ -523,6 +536,8 @@ func c11Safe(t *c11Tree, script string) bool {
 			ob = int(op[1] - '0')
 		case op[0] == 'u':
 			sub = int(op[1] - '0')
+		case op[0] == 'r':
+			ob, sub = 3, int(op[1]-'0')
 		case op[0] == 'd':
 			ob, sub = 0, 0
 		case op == "y":
@@ -629,6 +644,16 @@ func c11Gen(tier string, rng *rand.Rand, emit func(string)) map[string]interface
 	for n := 1; n <= 3; n++ {
 		for _, t := range c11Trees(n, memo) {
 			for _, sc := range branchScripts {
+				put(t, sc)
+				branching++
+			}
+		}
+	}
+	// re-configuration while a subscription is in flight (both handler fields pinned first)
+	raceScripts := []string{"o0 ; u2 ; r0 ; s", "o1 ; u2 ; r1 ; e", "o0 ; u0 ; r2 ; o0 ; s", "o2 ; u1 ; r3 ; r0 ; r1", "o0 ; u3 ; r2 ; y"}
+	for n := 1; n <= 3; n++ {
+		for _, t := range c11Trees(n, memo) {
+			for _, sc := range raceScripts {
 				put(t, sc)
 				branching++
 			}
